@@ -179,11 +179,13 @@ theorem state_is_data (C : Flp.FieldCtx F) (dim : Nat) (r : F) (share : List F) 
   | err => rw [hg] at h; cases h
   | panic => rw [hg] at h; cases h
 
-/-! ## the polynomial-identity halves (stated, not proved here) -/
+/-! ## the polynomial-identity halves (proved in `Props/C19Linear.lean`) -/
 
-/-- completeness: for data with every entry 0 or 1, the two verification messages computed from any
-    additive sharing of the honest proof are accepted at every point that is not an interpolation node -/
-def prio2_complete_statement : Prop :=
+/-- completeness WITHOUT hypotheses on the field context — kept because it was the first formulation: it is
+    FALSE (`Props.C19.unhypothesised_completeness_false` in `Props/C19Linear.lean`: a context whose root
+    table is present but wrong accepts nothing).  The correct statement, with the root chain, the canonical
+    `ofNat` and `2 ≠ 0` as hypotheses, is `Props.C19.prio2_complete` -/
+def prio2_complete_unhypothesised : Prop :=
   ∀ (F : Type) [Field F] [BEq F] [LawfulBEq F] (C : Flp.FieldCtx F) (data : List F) (f0 g0 r : F) (proof helper : List F)
     (v1 v2 : VerificationMessage F),
     (∀ x ∈ data, x = 0 ∨ x = 1) →
